@@ -1,5 +1,5 @@
 """C05 Allocation conservation."""
-from . import common, gen, hist, histcheck, c01, c02, c03, c04
+from . import common, gen, hist, histcheck, c01, c02, c03, c04, c07
 from .common import hexs
 
 NEEDED = ["adfFileRealSize"]
@@ -28,14 +28,48 @@ def cycle(ctx):
     return L, 0, 3520, {"flavour": flav, "sizes": sizes}
 
 
+def cache_dir_cycle(ctx):
+    """DIRCACHE: grow a directory over several cache blocks, empty it in a chosen order (so that later cache blocks lose their
+    last record), delete the directory; every block must come back"""
+    rng = ctx.rng
+    flav = rng.choice([4, 5])
+    L = gen.dev_create("DD", flav) + ["mountdev 0", "mount 0 0", "free", "mkdir - %s" % hexs(b"cd")]
+    d = hexs(b"cd")
+    n = rng.randint(12, 40)
+    names = [(b"e%02d_" % i + b"abcdefghijklmnopqrstuvwxyz")[:rng.choice([6, 16, 16, 29, 30])] for i in range(n)]
+    for i, nm in enumerate(names):
+        if rng.random() < 0.6:
+            L += ["open 0 %s %s w" % (d, hexs(nm)), "write 0 %d %d" % (i + 1, rng.choice([0, 0, 30, 700])), "close 0"]
+        else:
+            L += ["mkdir %s %s" % (d, hexs(nm))]
+    L += ["list %s 1 0" % d, "free", "dump $W/img1", "spectree"]
+    order = list(range(n))
+    mode = rng.choice(["tail-first", "head-first", "random", "move-out"])
+    if mode == "tail-first":
+        order.reverse()
+    elif mode == "random":
+        rng.shuffle(order)
+    for k, i in enumerate(order):
+        if mode == "move-out" and k % 2 == 0:
+            L += ["mv %s %s - %s" % (d, hexs(names[i]), hexs(names[i])), "rm - %s" % hexs(names[i])]
+        else:
+            L += ["rm %s %s" % (d, hexs(names[i]))]
+        if k == n // 2:
+            L += ["list %s 1 0" % d, "free", "dump $W/img2", "spectree"]
+    L += ["free", "dump $W/img3", "spectree", "rm - %s" % d, "free", "dump $W/img4", "spectree", "umount", "umountdev", "dump $W/img5", "spectree"]
+    return L, 0, 1760, {"flavour": flav, "entries": n, "order": mode}
+
+
 def run(ctx):
     proof = common.proof_status(ctx)
     b = [("create-delete-cycle", cycle) for _ in range(10 if ctx.tier == "quick" else 200)]
+    b += [("dircache-directory-cycle", cache_dir_cycle) for _ in range(6 if ctx.tier == "quick" else 120)]
+    b += [("dircache-empty-a-block", c07.block_sweep) for _ in range(2 if ctx.tier == "quick" else 30)]
     b += c01.builders(ctx)[: (18 if ctx.tier == "quick" else 300)]
     b += [("namespace", c02.ns_history) for _ in range(8 if ctx.tier == "quick" else 200)]
     b += [("multi-page", c04.big_volume) for _ in range(2 if ctx.tier == "quick" else 40)]
     b += [("rdb-partition", c03.part_history) for _ in range(3 if ctx.tier == "quick" else 60)]
-    rule = ("create/truncate/delete cycles over the size classes 0, <72, =72, >72, >144 data blocks with and without directory cache; file, namespace, multi-page and "
+    rule = ("DIRCACHE directories grown over several cache blocks, emptied tail-first / head-first / randomly / by moving entries out, then deleted; create/truncate/delete cycles over the size classes 0, <72, =72, >72, >144 data blocks with and without directory cache; file, namespace, multi-page and "
             "partition histories; at every dump: blocks marked allocated = reachable + reserved (decoder), free count reported by the library = bitmap count; "
             "after deleting everything the free count equals the initial one; distinct = distinct script")
     # additional oracle: in cycle histories the first and the last `free` must agree
